@@ -242,12 +242,29 @@ def _run_case(case, ctx):
         rank = min(rank, min(data["shape"][0]), data["shape"][1][1])
     seed = int(rs.randint(0, 2 ** 31 - 1))
     K = 10 if "linesearch" in which else 6
+    user_init = None
+    if algo == "tucker" and rs.rand() < 0.3:
+        # complex-valued data: HOOI must use conjugate transposes throughout
+        Xc = data["X"].astype(np.complex128)
+        Xc = Xc + 1j * rs.standard_normal(Xc.shape) * (float(np.max(np.abs(Xc))) or 1.0)
+        data = dict(data, X=Xc, cls=data["cls"] + "+complex")
+    if algo in ("nn_parafac_hals", "parafac") and data["kind"] == "tensor" and rs.rand() < 0.3:
+        # warm start with some modes kept fixed (HALS may also fix the last mode)
+        shp_ = data["shape"]
+        nfix = int(rs.randint(1, len(shp_)))
+        fm = sorted(rs.choice(len(shp_) if algo == "nn_parafac_hals" else len(shp_) - 1, size=min(nfix, len(shp_) - 1), replace=False).tolist())
+        opts = dict(opts, fixed_modes=fm)
+        opts.pop("init", None)
+        opts.pop("sparsity_coefficients", None)
+        pos = algo != "parafac"
+        user_init = (None, [(np.abs(rs.standard_normal((s_, rank))) + 0.1 if pos else rs.standard_normal((s_, rank))) for s_ in shp_])
+        which = which + "+fixed" + ("-last" if (len(shp_) - 1) in fm else "")
     desc = {"algo": algo, "data": data["cls"], "shape": data["shape"], "rank": rank, "options": which,
             "opts": {k: (sorted(v) if isinstance(v, set) else v) for k, v in opts.items()}}
     ctx.sample({"case": desc, "K": K}, 6)
     its, errsK = [], None
     for k in range(1, K + 1):
-        r = decomp.run(algo, data, rank, k, dict(opts), seed, tol=1e-100)
+        r = decomp.run(algo, data, rank, k, dict(opts), seed, tol=1e-100, init=None if user_init is None else (None, [f.copy() for f in user_init[1]]))
         its.append(decomp.snapshot(r["decomp"]))
         errsK = r["errors"]
     vals = [objective(algo, data, d, opts) for d in its]
